@@ -11,7 +11,10 @@ import random, json
 import vlib, corpus, svgen, tree, pp
 import c06
 
-BAD = ["\x01", "\x7f", "¤"]
+# bytes / characters that can start no token and are no white space of IEEE 1800-2017 5.3 (blank, tab, newline, form feed):
+# control characters, a currency sign, and characters that Unicode - but not the standard - counts as white space
+# (vertical tab, NEL, no-break space, line separator; round-3 seeded change: char::is_whitespace in white_space())
+BAD = ["\x01", "\x7f", "¤", "\x0b", "\u00a0", "\u2028", "\u0085"]
 CLOSERS = {")", "]", "}", "end", "endmodule", "endcase", "endfunction", "endtask", "endclass", "endpackage", "endinterface", "endprogram", "endgenerate"}
 
 
@@ -69,7 +72,7 @@ def closed_fault_cases():
             meta["base%d" % pc["id"]] = {"kind": "base-not-accepted", "outcome": r0.get("outcome"), "base": pc["files"]}
             continue
         for n, (path, off) in enumerate(boundaries(r0)):
-            bad = BAD[n % 3]
+            bad = BAD[n % len(BAD)]
             files = dict(pc["files"])
             b = files[path].encode()
             files[path] = {"bytes": list(b[:off] + bad.encode() + b[off:])}
@@ -121,7 +124,7 @@ def run(tier, seed):
         else:
             pick = rng.sample(bs, 40)
         for (path, off) in pick:
-            bad = BAD[nid % 3]
+            bad = BAD[nid % len(BAD)]
             files = dict(pc["files"])
             b = files[path].encode()
             files[path] = {"bytes": list(b[:off] + bad.encode() + b[off:])}
